@@ -269,6 +269,7 @@ Proof.
     destruct ((l =? 0) || (l =? 15)); [left; reflexivity|]. destruct (l =? 1); [right; reflexivity|exact Logic.I]. }
   clearbody y. destruct y as [[c' l']|]; [|apply ospec_err; exact W4].
   assert (Hc' : 3 <= c' <= 17 \/ c' = 19) by (unfold bcNone, bcTrue in *; lia).
+  destruct ((c' =? bcNegInt) && (l' =? 15)); [apply ospec_err; exact W4|].
   destruct ((l' =? 15) && negb lr).
   { assert (R0 : room b4 (b_len b4)) by (rewrite Ln4, Len; apply room_0; exact C4).
     assert (P0 : b_pos b4 + b_len b4 < two64) by (rewrite Ln4, Len; destruct C4 as (_ & _ & P4 & _); lia).
